@@ -25,6 +25,7 @@ that the literal hypothesis is not sufficient for the real code stays: `slow_pru
 by `c10 slowprune`).  Backup ∥ backup: any interleaving of two step-wise safe write sequences is safe.
 -/
 import Rustic.Model.Interleave
+import Rustic.Model.Prune
 import Rustic.Lemmas.Interleave
 import Rustic.Lemmas.Repo
 namespace Rustic.Props.C10
@@ -121,6 +122,32 @@ theorem needed_marked_pack_recovered_whatever_its_age (s : St) (p : PackSt) (t :
   simp only [visible, List.any_eq_true, Bool.and_eq_true, beq_iff_eq, List.contains_iff_mem]
   exact ⟨_, h, ⟨hst, rfl⟩, hb⟩
 
+open Rustic.Prune in
+/-- **the order of the tests in `followupPrune` is the decision table's** (C02's model `decideOne` of `decide_packs`, which is
+compared with the real planner on every C02 run): for a MARKED pack the decision is `recover` as soon as one blob is used —
+whatever `p.time`, `o.now`, `o.keepDelete` — and only for a pack with no used blob the age of the mark decides between `delete`
+(`t + keep_delete ≤ now`) and `keepMarked`. -/
+theorem marked_pack_decision_tests_use_before_age (kc : Consts) (o : Opts) (p : PPack) (pi : PackInfo) (hm : p.mark = true) :
+    (decideOne kc o p pi).1 =
+      if pi.usedBlobs ≠ 0 then .recover
+      else match p.time with
+        | some t => if t + o.keepDelete ≤ o.now then .delete else .keepMarked
+        | none => .keepMarkedAndCorrect := by
+  unfold decideOne
+  simp only [hm]
+  cases hu : pi.usedBlobs with
+  | succ n => simp
+  | zero =>
+    simp only [ne_eq, not_true_eq_false, if_false]
+    cases p.time with
+    | none => rfl
+    | some t =>
+      simp only []
+      by_cases h : t + o.keepDelete ≤ o.now
+      · have : o.now - o.keepDelete ≥ t := by omega
+        simp [h, this]
+      · have : ¬ (o.now - o.keepDelete ≥ t) := by omega
+        simp [h, this]
 /-- the same with the old mark spelled out: when `t + keep_delete ≤ now`, what the follow-up prune does to the pack is decided
 by use alone — used: recovered; used by no snapshot: removed. -/
 theorem old_mark_is_executed_only_for_unneeded_packs (s : St) (p : PackSt) (t : Int) (hp : p ∈ s.packs)
@@ -152,6 +179,26 @@ theorem kept_marked_packs_keep_their_blobs (s s' : St) (j : Nat) (pr : Prune) (h
   subst e
   exact List.mem_map.mpr ⟨p, hp, rewritePack_keepMarked hm hk⟩
 
+open Rustic.Prune in
+/-- … and in C02's execution model (`Prune.execute` of `prune_repository`): a pack decided `keepMarked` (or
+`keepMarkedAndCorrect`) that lies in an index file which is rebuilt is written to the marked section of the rebuilt index with its
+old mark time and its COMPLETE blob list (`toIdx` = `into_index_pack`). -/
+theorem kept_marked_entry_is_rewritten_with_its_blobs (typed : Bool) (o : Opts) (d : Decided) (p : PPack) (hp : p ∈ d.packs)
+    (hr : d.rebuild.contains p.index = true) (ht : p.todo = .keepMarked ∨ p.todo = .keepMarkedAndCorrect)
+    (hi : o.instantDelete = false) :
+    toIdx p (some (p.time.getD o.now)) ∈ (execute typed o d).newMarked ∧
+    (toIdx p (some (p.time.getD o.now))).blobs = p.blobs.map blobKey := by
+  refine ⟨?_, rfl⟩
+  have hne : d.rebuild.isEmpty = false := by
+    cases hd : d.rebuild with
+    | nil => rw [hd] at hr; simp at hr
+    | cons a l => rfl
+  unfold execute
+  simp only [hne, hi, Bool.false_eq_true, if_false]
+  apply List.mem_append_right
+  rw [List.mem_filterMap]
+  refine ⟨p, List.mem_filter.mpr ⟨hp, hr⟩, ?_⟩
+  rcases ht with h | h <;> simp [h]
 /-- more generally an index rewrite changes the status of packs only: ids and blob lists of ALL packs are what they were. -/
 theorem every_prune_step_keeps_blob_lists (s s' : St) (j : Nat) (h : step s (.pruneRewrite j) = some s') :
     s'.packs.map (fun p => (p.id, p.blobs)) = s.packs.map (fun p => (p.id, p.blobs)) := by
